@@ -772,6 +772,14 @@ func genC17(t *rapid.T) C17Case {
 		center = rapid.IntRange(121, 125).Draw(t, "highCenter")
 		d.Semitone = rapid.IntRange(3, 11).Draw(t, "posSemitone")
 		d.Octave = -rapid.IntRange(1, 3).Draw(t, "negOctave")
+	case 2: // far below: every key is out of range (offset <= -129), MIDI input still sounds
+		center = rapid.IntRange(0, 8).Draw(t, "lowCenter")
+		d.Octave = -rapid.IntRange(9, 10).Draw(t, "farOctave")
+		d.Semitone = -rapid.IntRange(9, 30).Draw(t, "farSemitone")
+	case 3: // far above
+		center = rapid.IntRange(119, 127).Draw(t, "highCenter")
+		d.Octave = rapid.IntRange(9, 10).Draw(t, "farOctave")
+		d.Semitone = rapid.IntRange(9, 30).Draw(t, "farSemitone")
 	}
 	for mi := 0; mi < nMap; mi++ {
 		m := MappingDef{Name: []string{"Piano", "Chromatic", "Drums"}[mi], KeySubs: []string{""}}
@@ -870,9 +878,7 @@ func genC17(t *rapid.T) C17Case {
 			case "semitone_down":
 				s--
 			}
-			if v := 12*o + s; v > 127 || v < -127 {
-				continue
-			}
+			_, _ = o, s // (every combination is reachable: no bound on the transposition any more)
 			h.tap(code)
 			flush(from)
 		case k < 9:
@@ -885,6 +891,8 @@ func genC17(t *rapid.T) C17Case {
 				kd := keys[rapid.IntRange(0, len(keys)-1).Draw(t, "whichKey")]
 				if p := kd.Note + 12*mdl.Octave + mdl.Semitone; p >= 0 && p <= 127 {
 					note = p
+				} else if alias := ((p % 256) + 256) % 256; alias <= 127 {
+					note = alias // the pitch that equals this (out of range) key's pitch in 8-bit arithmetic
 				}
 			}
 			var m []byte
